@@ -252,6 +252,14 @@ func labels(c Case) []string {
 		if c.FeatNil {
 			set["Features nil"] = true
 		}
+		if n := max(c.Seq.N, len(c.Seq.Lit)); n >= 65536 {
+			set["sequence of >= 65536 letters"] = true
+		} else if n >= 4096 {
+			set["sequence of 4096..65535 letters"] = true
+		}
+		if len(c.Meta.Definition) >= 4096 || len(c.Desc) >= 4096 || len(c.Meta.Other["COMMENT"]) >= 4096 {
+			set["text field of >= 4096 bytes"] = true
+		}
 		for _, f := range c.Features {
 			if d := depth(f.Loc); d >= 1 {
 				set[fmt.Sprintf("nested location depth %d", min(d, 4))] = true
@@ -335,7 +343,23 @@ func genValue(t *rapid.T) Case {
 	c.Meta.Other = drawMap(t, "other")
 	c.OtherNil = len(c.Meta.Other) == 0 && rapid.Bool().Draw(t, "other_nil")
 	c.Desc, c.Hash, c.HashFn = tx("description"), tx("hash"), tx("hash_function")
-	c.Seq = vk.DrawSeq(t, "seq", rapid.SampledFrom([]string{"ACGT", "acgtn", "ACGTRYKMSWBDHVN"}).Draw(t, "alphabet"), 0, 10000)
+	c.Seq = vk.DrawSeq(t, "seq", rapid.SampledFrom([]string{"ACGT", "acgtn", "ACGTRYKMSWBDHVN"}).Draw(t, "alphabet"), 0, 300000)
+	// one value in ten carries a long text field (the JSON text is laid out on lines; long ones matter)
+	if rapid.IntRange(0, 9).Draw(t, "long_text") == 0 {
+		long := "é" + vk.Fill(rapid.Uint64().Draw(t, "long_text_fill"), vk.DrawSize(t, "long_text", 1000, 200000), "abc xyz,.\\\"/")
+		switch rapid.IntRange(0, 2).Draw(t, "long_text_field") {
+		case 0:
+			c.Meta.Definition = long
+		case 1:
+			c.Desc = long
+		default:
+			if c.Meta.Other == nil {
+				c.Meta.Other = map[string]string{}
+			}
+			c.Meta.Other["COMMENT"] = long
+			c.OtherNil = false
+		}
+	}
 	n := len(c.Seq.String())
 	nf := rapid.IntRange(0, 6).Draw(t, "n_features")
 	if n == 0 {
@@ -356,7 +380,7 @@ func genValue(t *rapid.T) Case {
 }
 
 func genGenBank(t *rapid.T) Case {
-	r := gbk.Draw(t, "r", 3000, 20)
+	r := gbk.Draw(t, "r", 100000, 20)
 	return Case{Kind: "genbank", Record: &r}
 }
 
